@@ -63,7 +63,12 @@ where
     R: Read,
 {
     match read_header(reader, &mut container.header)? {
-        0 => Ok(0),
+        0 => {
+            // The EOF container is only complete with its body.
+            let mut body = [0; header::EOF_LENGTH];
+            reader.read_exact(&mut body)?;
+            Ok(0)
+        }
         len => {
             container.src.resize(len, 0);
             reader.read_exact(&mut container.src)?;
